@@ -567,6 +567,11 @@ def reductions(sc):
         candidate["world"] = dict(NEUTRAL_WORLD, copy_chunk=keep_chunk)
         if candidate["world"] != sc["world"]:
             yield candidate
+    for key, neutral in NEUTRAL_WORLD.items():
+        if sc["world"].get(key, neutral) != neutral:
+            candidate = copy.deepcopy(sc)
+            candidate["world"][key] = neutral
+            yield candidate
     if sc["cls"] != [0, "utf8"]:
         candidate = copy.deepcopy(sc)
         candidate["cls"] = [0, "utf8"]
